@@ -279,6 +279,7 @@ func cowRunImpl(c corr.Case) []string {
 			// files and directories (EISDIR on a real file system) and promises no listing
 			if strings.HasPrefix(res, "h=") && len(t) > 1 && (t[0] == "open" || t[0] == "openfile" && atoi(t[2])&(1|2|0x40|0x200|0x400) == 0) {
 				handlePath[len(r.H)-1] = filepath.Clean("/" + string(corr.UnHex(t[1])))
+				firstPage[len(r.H)-1] = muts // the listing a handle promises is the one of the moment it was opened
 			}
 			isErr := strings.HasPrefix(res, "err:")
 			if isErr && !strings.HasPrefix(t[0], "h.") && viewString(want) != viewBefore {
@@ -310,7 +311,7 @@ func cowRunImpl(c corr.Case) []string {
 					seen[x] = true
 				}
 				// (a directory changed between two pages of one handle is outside what the pages can promise)
-				if e, ok := want[handlePath[hi]]; ok && e.dir && firstPage[hi] == muts && (n <= 0 || strings.HasSuffix(res, "err:eof")) {
+				if e, ok := want[handlePath[hi]]; ok && e.dir && firstPage[hi] == muts && !strings.HasPrefix(res, "err:") && (n <= 0 || strings.HasSuffix(res, "err:eof")) {
 					var got []string
 					for _, x := range pages[hi] {
 						got = append(got, string(corr.UnHex(strings.Split(x, "/")[0])))
